@@ -362,7 +362,7 @@ func @main() {
 	b = append(b, "!"...)
 	println(len(b), string(b[len(s):]) == s+"!")
 	n := copy(b, "XY")
-	println(n, string(b[:2]))
+	println(n, string(b[:n]))
 	if len(b) > 2 {
 		b[2] = 'Q'
 	}
